@@ -54,6 +54,8 @@ type Step struct {
 	K      int       `json:"k,omitempty"`
 	Header bool      `json:"hdr,omitempty"`
 	Used   bool      `json:"used,omitempty"`  // load into a used index
+	// Alien (with Header): the receiving index was built for another dimension, metric and M/ef/efConstruction - the header describes the contents
+	Alien bool `json:"alien,omitempty"`
 	Chunk  []int     `json:"chunk,omitempty"` // reader fragment sizes (cyclic); empty = whole buffer
 	Aim    int       `json:"aim,omitempty"`   // remove: 1 = whichever item is the entry point at that moment, 2 = the entry point's nearest live neighbour on its highest linked layer (Id if there is none)
 }
@@ -75,7 +77,7 @@ func (h History) String() string {
 		case OpRemove:
 			fmt.Fprintf(&b, " remove(#%d,aim=%d)", s.Id, s.Aim)
 		case OpSaveLoad:
-			fmt.Fprintf(&b, " saveload(hdr=%v,used=%v,chunk=%v)", s.Header, s.Used, s.Chunk)
+			fmt.Fprintf(&b, " saveload(hdr=%v,used=%v,alien=%v,chunk=%v)", s.Header, s.Used, s.Alien, s.Chunk)
 		case OpSearch:
 			fmt.Fprintf(&b, " search(%v,k=%d)", s.Vec, s.K)
 		case OpGet:
@@ -167,6 +169,7 @@ func Gen(o GenOpts) *rapid.Generator[History] {
 			case OpSaveLoad:
 				s.Header = rapid.Bool().Draw(t, "hdr")
 				s.Used = rapid.Bool().Draw(t, "used")
+				s.Alien = s.Header && rapid.Bool().Draw(t, "alien")
 				if !o.NoChunk && rapid.Bool().Draw(t, "chunked") {
 					s.Chunk = rapid.SliceOfN(rapid.SampledFrom([]int{1, 1, 2, 3, 5, 7, 16, 64, 1000}), 1, 6).Draw(t, "chunk")
 				}
@@ -524,11 +527,20 @@ func (e *Exec) SaveLoad(s Step, where string) *pbt.Failure {
 	}
 	raw := append([]byte(nil), buf.Bytes()...)
 	var target *index.Hnsw
+	tc := e.H.Cfg
+	if s.Alien && s.Header {
+		// (only what the header carries differs: the neighbour-selection flags are not part of it)
+		tc.Dim, tc.Metric = tc.Dim%5+1, (tc.Metric+1)%3
+		if !tc.Default {
+			tc.M, tc.Ef, tc.EfC = tc.M%16+1, tc.Ef+3, tc.EfC+5
+		}
+		e.Obs.Label("header-load-into-index-of-other-shape")
+	}
 	if s.Used {
-		target = UsedIndex(e.H.Cfg, 5)
+		target = UsedIndex(tc, 5)
 		e.Obs.Label("load-into-used")
 	} else {
-		target = NewIndex(e.H.Cfg)
+		target = NewIndex(tc)
 	}
 	br := bytes.NewReader(raw)
 	cr := &chunkReader{r: br, sizes: s.Chunk}
